@@ -45,4 +45,5 @@ struct IntegratorRep {
 
 /* ghost state */
 extern int  ghost_threw;        /* exception plumbing: set where the real code throws */
-extern int  ghost_steps;        /* number of takeOneStep() calls (incremented by its contract) */
+extern unsigned ghost_steps;    /* number of takeOneStep() calls (incremented by its contract; unsigned: wraps legally) */
+extern int  ghost_stepped;      /* 1 once takeOneStep() was called by the current stepTo() */
